@@ -49,6 +49,16 @@ def leadgap_layout(term="jcc:s0", annots=True):
     return spec
 
 
+def orphan_mid_layout():
+    """F = {b0}, a code block in no function (padding between functions), G = {b2}"""
+    spec = text_layout("o", annots=False)
+    blocks = spec["sections"][0]["blocks"]
+    blocks[1]["func"] = None
+    blocks[1]["syms"] = []
+    blocks[1]["esyms"] = []
+    return spec
+
+
 def interleaved_layout():
     """F entry, G entry, F block, F block: function F is interleaved with G"""
     return {
@@ -321,7 +331,9 @@ def shapes(tier):
                      [ins("b0", 0, "call:s2")], [rep("b0", 1, 2, "call:s2")], [dele("b3", 0, 2)], [dele("b2", 0, 2)],
                      [ins("b3", 1, "call:s2")], [ins("b1", 0, "call:ext1")], [dele("b1", 1, 2)], [ins("b4", 1, "ret")],
                      [dele("b0", 1, 2), ins("b1", 1, "call:s2")], [ins("b0", 2, "mov")],
-                     [ins("b2", 1, "ret")], [ins("b2", 0, "ret"), ins("b1", 1, "call:s2")]):
+                     [ins("b2", 1, "ret")], [ins("b2", 0, "ret"), ins("b1", 1, "call:s2")],
+                     # the entry block and the block promoted in its place both go, a third block of the function stays
+                     [dele("b0", 0, 2), dele("b1", 0, 2)], [dele("b1", 0, 2), dele("b0", 0, 2)]):
             spec = callgraph_layout(second)
             spec["mods"] = copy.deepcopy(mods)
             out.append(("callgraph%d/%s" % (2 if second else 1, mods_name(mods)), spec))
@@ -332,6 +344,10 @@ def shapes(tier):
     spec = text_layout("jcc:s0")
     spec["mods"] = [rep("b1", 0, 3, "selfloop")]
     out.append(("text/jcc:s0/%s" % mods_name(spec["mods"]), spec))
+    for mods in ([dele("b0", 0, 2)], [dele("b2", 0, 2)], [dele("b0", 0, 2), dele("b1", 0, 3)], [ins("b1", 1, "mov")], [dele("b1", 0, 3)]):
+        spec = orphan_mid_layout()
+        spec["mods"] = copy.deepcopy(mods)
+        out.append(("orphan-mid/%s" % mods_name(mods), spec))
     for mods in ([dele("b0", 0, 2)], [dele("b2", 0, 2)], [dele("b0", 0, 2), dele("b1", 0, 3)], [dele("b0", 0, 1)],
                  [ins("b0", 0, "mov"), dele("b0", 0, 2)]):
         spec = two_entries_layout()
